@@ -617,7 +617,55 @@ def h_max2(I, st, fr, e, c, a):
     return [(st, VTop("max"), None)]
 
 
+def h_bool_then(I, st, fr, e, c, a):
+    b = deref(I, st, a[0])
+    f = b.f if isinstance(b, VBool) else ("unk", ("then", e.get("sp", "?")))
+    yes, no = I.branch(st, f)
+    out = [(s, NONE, None) for s in no]
+    for s in yes:
+        for (s2, r, ctl) in I.apply_value(a[1], [], s, fr, e):
+            out.append((s2, some(r) if ctl is None else r, ctl))
+    return out
+
+
+def h_bool_then_some(I, st, fr, e, c, a):
+    b = deref(I, st, a[0])
+    f = b.f if isinstance(b, VBool) else ("unk", ("then_some", e.get("sp", "?")))
+    yes, no = I.branch(st, f)
+    return [(s, NONE, None) for s in no] + [(s, some(a[1]), None) for s in yes]
+
+
+def h_opt_and(I, st, fr, e, c, a):
+    out = []
+    for (s, tag, pl, _) in _opt_cases(I, st, a[0]):
+        out.append((s, a[1] if tag in ("Some", "Ok") else NONE, None))
+    return out
+
+
+def h_opt_or(I, st, fr, e, c, a):
+    out = []
+    for (s, tag, pl, orig) in _opt_cases(I, st, a[0]):
+        out.append((s, orig if tag in ("Some", "Ok") else a[1], None))
+    return out
+
+
+def h_opt_zip(I, st, fr, e, c, a):
+    out = []
+    for (s, tag, pl, _) in _opt_cases(I, st, a[0]):
+        if tag not in ("Some", "Ok"):
+            out.append((s, NONE, None))
+            continue
+        for (s2, tag2, pl2, _) in _opt_cases(I, s, a[1]):
+            out.append((s2, some(VTup([pl, pl2])) if tag2 in ("Some", "Ok") else NONE, None))
+    return out
+
+
 SIMPLE.update({
+    "core::bool::<impl bool>::then": h_bool_then,
+    "core::bool::<impl bool>::then_some": h_bool_then_some,
+    "std::option::Option::<T>::and": h_opt_and,
+    "std::option::Option::<T>::or": h_opt_or,
+    "std::option::Option::<T>::zip": h_opt_zip,
     "std::option::Option::<T>::is_some_and": h_is_some_and,
     "std::result::Result::<T, E>::is_ok_and": h_is_some_and,
     "std::option::Option::<T>::is_none_or": h_is_none_or,
